@@ -159,9 +159,10 @@ def declRun (s : DState) : List String → List String
 
 /-- `PM1` / `PM2`: the same parse on a parser object that was move-constructed / move-assigned after
 its declaration — for the model and the specification the same thing as `P`; `HM`: a parse history
-with the parser object moved between the parses — the same thing as `H` -/
+with the parser object moved between the parses — the same thing as `H`; `PU`: the parse goes through
+`parse(vector<user_input>)` only (tokens with embedded NUL bytes) — the same thing as `P` -/
 def normOp (f : List String) : List String :=
-  f.map fun x => if x = "PM1" ∨ x = "PM2" then "P" else if x = "HM" then "H" else x
+  f.map fun x => if x = "PM1" ∨ x = "PM2" ∨ x = "PU" then "P" else if x = "HM" then "H" else x
 
 def model (f00 : List String) : String :=
   let f0 := normOp f00
